@@ -3,4 +3,5 @@ CONSTANTS
   W = 2
   MAXLIMBS = 3
 INVARIANT Contract
+INVARIANT Composed
 CHECK_DEADLOCK FALSE
